@@ -1328,6 +1328,7 @@ package yqlib
 //@   ensures @same-kind-and-look {C05} implies(result == nil, sameLook(o, node) && implies(node.Kind == 2 || node.Kind == 4 || node.Kind == 8 || node.Kind == 16, 2 * o.Kind == node.Kind))
 //@   ensures @children-in-order {C05} implies(result == nil && (node.Kind == 2 || node.Kind == 4), len(o.Content) == len(node.Content) && forall(i, 0, len(node.Content), o.Content[i] != nil && sameLook(o.Content[i], node.Content[i])))
 //@   ensures @unknown-kinds-are-refused {C05} implies(node.Kind != 0 && node.Kind != 2 && node.Kind != 4 && node.Kind != 8 && node.Kind != 16, result != nil)
+//@   at decodeIntoChild: assert @a-node-registers-its-anchor-before-its-children-are-read {C13} calls(copyFromYamlNode) == 1 && arg2 == anchorMap
 //@   loop 1:
 //@     invariant 0 <= i && i <= len(node.Content) && i % 2 == 0 && len(o.Content) == len(node.Content) && freshSlice(o.Content) && sameLook(o, node) && o.Kind == MappingNode
 //@     invariant forall(j, 0, i, o.Content[j] != nil && fresh(o.Content[j]) && sameLook(o.Content[j], node.Content[j]))
@@ -1861,3 +1862,17 @@ package yqlib
 //@   noframe
 //@   requires o != nil
 //@   at Encode#2: assert @only-a-representable-scalar-is-encoded {C06} calls(GetValueRep) == 1 && err == nil && arg1 == value
+
+// operator_traverse_path.go: `.m["k1","k2"]` yields the matches of every listed key, in the order listed (C01),
+// so an assignment through it reaches every match (C02)
+//@ func traverseMapWithIndices
+//@   props C01 C02
+//@   nosafety
+//@   nopre
+//@   noframe
+//@   overlay
+//@   at traverseMap#2: assert @each-listed-key-is-looked-up-in-the-map-itself {C01,C02} arg1 == candidate && arg2 == indices[rangeidx()] && arg3 == prefs && !arg4
+//@   at PushBackList: assert @the-matches-of-every-key-are-kept {C01,C02} arg1 == resultOf(traverseMap) && calls(PushBackList) == rangeidx()
+//@   at return: assert @one-lookup-per-listed-key {C01,C02} implies(result1 == nil && len(indices) > 0, calls(PushBackList) == len(indices))
+//@   loop 1:
+//@     invariant @kept-so-far {C01,C02} calls(PushBackList) == rangeidx() && 0 <= rangeidx() && rangeidx() <= len(indices)
